@@ -3,7 +3,7 @@ CONSTANTS
   Mode = "dep"
   NNames = 3
   WithSelf = FALSE
-  PlaceIn = {1, 2, 3, 4, 6}
+  PlaceIn = {1, 3, 4, 6}
   SelfPlaces = {2}
   KeyOrders = "all"
   G2Scopes <- Chain123
